@@ -295,6 +295,10 @@ def run_C15(ctx, R):
     helper.rule_helper(ctx, R)
     # the statistics of a restored automaton: num_states and the tables travel in the image
     ser.rule_ser(ctx, R)
+    # a counted state is reachable only through BASE/CHECK words that are stored and read back bit-exactly (a CHECK accessor that
+    # drops a bit makes every edge labelled with that bit unenterable: the subtree is counted but dead) — round 9, C15-r9-1
+    with ctx.only({"ACC-PACK", "ACC-STATE"}):
+        acc.rule_accessors(ctx, R)
 
 
 def run_C16(ctx, R):
